@@ -73,6 +73,19 @@ struct InBuf : std::streambuf {
       pos += n;
       return traits_type::to_int_type(*b);
    }
+   // what kind of object stdin is: a regular file can be repositioned and knows how much is left, a pipe cannot
+   bool seekable = false;
+   pos_type seekoff(off_type off, std::ios_base::seekdir dir, std::ios_base::openmode which) override
+   {
+      if (!seekable || !(which & std::ios_base::in)) return pos_type(off_type(-1));
+      const off_type cur = (off_type)(pos - (size_t)(egptr() - gptr()));
+      off_type target = dir == std::ios_base::beg ? off : dir == std::ios_base::cur ? cur + off : (off_type)doc->size() + off;
+      if (target < 0 || target > (off_type)doc->size()) return pos_type(off_type(-1));
+      pos = (size_t)target; setg(nullptr, nullptr, nullptr);
+      return pos_type(target);
+   }
+   pos_type seekpos(pos_type p, std::ios_base::openmode which) override { return seekoff(off_type(p), std::ios_base::beg, which); }
+   std::streamsize showmanyc() override { return seekable ? (std::streamsize)(doc->size() - pos) : 0; }
 };
 /// stdout/stderr: collects bytes; a sink fault makes it accept only the first k bytes
 struct OutBuf : std::streambuf {
@@ -155,7 +168,7 @@ void run_l1(const Scenario& s, Outcome& o)
    for (auto& a : args) argv.push_back(a.c_str());
    argv.push_back(nullptr);
 
-   InBuf in; in.doc = &s.doc; in.rng.reseed(s.chunk_seed); in.maxchunk = s.chunk_max; in.failat = (s.src == SRC_STDIN) ? s.readerr : -1;
+   InBuf in; in.doc = &s.doc; in.rng.reseed(s.chunk_seed); in.maxchunk = s.chunk_max; in.failat = (s.src == SRC_STDIN) ? s.readerr : -1; in.seekable = s.stdin_is_file;
    OutBuf out, err; out.limit = s.sinkfail_out; err.limit = s.sinkfail_err;
    static std::ios pristine(nullptr);
    std::streambuf* oin = std::cin.rdbuf(&in); std::streambuf* oout = std::cout.rdbuf(&out); std::streambuf* oerr = std::cerr.rdbuf(&err);
@@ -718,7 +731,8 @@ std::vector<std::string> plan_of(const std::string& kind, uint64_t seed, uint64_
    if (kind == "BLOCKS") return g_blocks.plan(idx);
    if (kind == "BLOCKSQ") return g_blocksq.plan(idx);
    if (kind == "EDGE") return g_boundary.plan(g_boundary.first_edge() + idx);
-   if (kind == "CORPUS") { if (idx < 2 * g_corpus.files.size()) return {"base corpus " + g_corpus.files[idx / 2].rel, std::string("src ") + ((idx & 1) ? "path" : "stdin")}; }
+   if (kind == "CORPUS") { // every shipped file: by path, on a pipe, as a regular file on stdin
+      if (idx < 3 * g_corpus.files.size()) { std::vector<std::string> p = {"base corpus " + g_corpus.files[idx / 3].rel, std::string("src ") + ((idx % 3) == 1 ? "path" : "stdin")}; if (idx % 3 == 2) p.push_back("stdinkind file"); return p; } }
    return {};
 }
 
@@ -750,7 +764,7 @@ int main(int argc, char** argv)
       if (pid == 0) {
          close(fd[0]);
          uint64_t m = 0;
-         for (size_t i = 0; i < 2 * g_corpus.files.size(); ++i) {
+         for (size_t i = 0; i < 3 * g_corpus.files.size(); ++i) {
             RunResult rr; run_plan(plan_of("CORPUS", 0, i, nullptr), i, "calibration", rr, nullptr);
             m = std::max(m, rr.steps);
          }
@@ -798,7 +812,7 @@ int main(int argc, char** argv)
       } else if (t[0] == "COUNT") {
          std::printf("COUNT CONFIG %zu\nCOUNT CONFIGQ %zu\nCOUNT ARGLEN %zu\nCOUNT BOUNDARY %zu\nCOUNT EDGE %zu\nCOUNT SCALE %zu\nCOUNT SCALEQ %zu\nCOUNT CMDLINE %zu\nCOUNT ENV %zu\nCOUNT BLOCKS %zu\nCOUNT BLOCKSQ %zu\nCOUNT KNOB %zu\n", g_config.total, g_configq.total, g_arglen.total, g_boundary.total, g_boundary.edge.size(), g_scale.total, g_scaleq.total, g_cmdline.total, g_envspace.total, g_blocks.total, g_blocksq.total, g_knobs.total);
          std::printf("COUNT PREFIX %zu\nCOUNT PREFIXQ %zu\nCOUNT TOKEN %zu\nCOUNT TOKENQ %zu\nCOUNT CORPUS %zu\nBUDGET %" PRIu64 " %" PRIu64 "\nDONE\n",
-                     g_prefix.total, g_prefixq.total, g_token.total, g_tokenq.total, 2 * g_corpus.files.size(), g_budget, max_steps);
+                     g_prefix.total, g_prefixq.total, g_token.total, g_tokenq.total, 3 * g_corpus.files.size(), g_budget, max_steps);
       } else if (t[0] == "DUMP" && t.size() >= 4) {
          for (auto& l : plan_of(t[1], std::strtoull(t[2].c_str(), nullptr, 0), std::strtoull(t[3].c_str(), nullptr, 0), nullptr)) std::printf("OP %s\n", l.c_str());
          std::printf("DONE\n");
@@ -818,6 +832,7 @@ int main(int argc, char** argv)
             if (s.materialise_file) meta += "materialise 1\n";
             meta += "env " + std::to_string(s.env_mode) + "\n";
             meta += "maxiter " + std::to_string(s.max_iter_knob) + "\n";
+            meta += std::string("stdinfile ") + (s.stdin_is_file ? "1" : "0") + "\n";
             if (s.src == SRC_TILDE) { static const char* const sp[] = {"~/input.in", "~", "~nobody/x", "~/"}; meta += std::string("tilde ") + sp[s.tilde_kind & 3] + "\n"; }
             auto esc = [](const std::string& a) { std::string o; for (char c : a) { if (c == '\\') o += "\\\\"; else if (c == '\n') o += "\\n"; else o += c; } return o; };
             for (auto& a : s.pre_args) meta += "prearg " + esc(a) + "\n";
